@@ -12,6 +12,8 @@ pub mod h_panic;
 pub mod h_fin;
 pub mod h_api;
 pub mod h_count;
+#[cfg(feature = "auto-collect")]
+pub mod h_policy;
 #[cfg(feature = "weak-ptrs")]
 pub mod h_cyclic;
 #[cfg(feature = "weak-ptrs")]
